@@ -534,3 +534,81 @@ Lemma lfilter_go_length b a1 xp yp x : length (lfilter_go b a1 xp yp x) = length
 Proof. revert xp yp; induction x as [|xn x IH]; intros; simpl; [reflexivity|]. rewrite IH. reflexivity. Qed.
 Lemma lfilter_ref_length b a x : length (lfilter_ref b a x) = length x.
 Proof. apply lfilter_go_length. Qed.
+
+(* ------------------------------------------------------------------ positivity from positive definiteness *)
+(* c^H T c for the n x n Hermitian Toeplitz matrix T[i,j] = R_{i-j} *)
+Definition hform (R : nat -> C) (c : nat -> C) (n : nat) : C :=
+  csumn (fun i => cmul (cconj (c i)) (csumn (fun j => cmul (Rlag R i j) (c j)) n)) n.
+(* the prediction error filter (1, -a_1, ..., -a_p) *)
+Definition errfilt (a : nat -> C) (i : nat) : C := match i with O => c1 | S i' => cneg (a i') end.
+
+Lemma hform_errfilt R a b p :
+  normal_eqs R a p -> sigma_eq R a b p -> hform R (errfilt a) (S p) =c= ofQ b.
+Proof.
+  intros N Sg. unfold hform.
+  assert (Inner0 : csumn (fun j => cmul (Rlag R 0 j) (errfilt a j)) (S p) =c= ofQ b).
+  { rewrite csumn_shift. unfold sigma_eq in Sg. rewrite Sg.
+    transitivity (cadd (R 0%nat) (cneg (csumn (fun j => cmul (a j) (cconj (R (S j)))) p))); [|cring].
+    apply cadd_proper; [unfold Rlag, errfilt; simpl; cring|].
+    rewrite <- csumn_neg. apply csumn_ext; intros j Hj. unfold Rlag, errfilt. simpl. cring. }
+  assert (InnerS : forall i, (i < p)%nat -> csumn (fun j => cmul (Rlag R (S i) j) (errfilt a j)) (S p) =c= c0).
+  { intros i Hi. rewrite csumn_shift.
+    transitivity (cadd (R (S i)) (cneg (csumn (fun j => cmul (a j) (Rlag R i j)) p))); [|rewrite (N i Hi); cring].
+    apply cadd_proper; [unfold Rlag, errfilt; simpl; cring|].
+    rewrite <- csumn_neg. apply csumn_ext; intros j Hj. unfold errfilt.
+    change (Rlag R (S i) (S j)) with (Rlag R i j). cring. }
+  rewrite csumn_shift. rewrite Inner0.
+  transitivity (cadd (ofQ b) (csumn (fun _ => c0) p)).
+  - apply cadd_proper; [unfold errfilt; cring|].
+    apply csumn_ext; intros i Hi. rewrite (InnerS i Hi). cring.
+  - rewrite csumn_zero. cring.
+Qed.
+
+(* positive definite up to size n: the form is positive on every vector with c_0 = 1 (enough here) *)
+Definition pos_def (R : nat -> C) (n : nat) : Prop :=
+  forall c : nat -> C, c 0%nat =c= c1 -> 0 < re (hform R c n).
+
+Lemma sb_pos_of_pd R p :
+  im (R 0%nat) == 0 -> (forall q, (q < p)%nat -> ~ sb R q == 0) -> pos_def R (S p) -> 0 < sb R p.
+Proof.
+  intros H0 Hb PD. destruct (ld_invariants R p H0 Hb) as [N Sg].
+  pose proof (hform_errfilt R (sa R p) (sb R p) p N Sg) as E.
+  specialize (PD (errfilt (sa R p)) ltac:(reflexivity)). rewrite E in PD. exact PD.
+Qed.
+
+(* all leading systems positive definite: every prediction error is positive and every reflection
+   coefficient has modulus < 1 *)
+Lemma pd_all R p :
+  im (R 0%nat) == 0 -> (forall m, (1 <= m <= S p)%nat -> pos_def R m) ->
+  (forall q, (q <= p)%nat -> 0 < sb R q) /\ (forall q, (1 <= q <= p)%nat -> cnorm2 (sk R q) < 1).
+Proof.
+  intros H0 PD.
+  assert (A : forall q, (q <= p)%nat -> 0 < sb R q).
+  { intros q. induction q as [q IH] using lt_wf_ind. intros Hq.
+    apply sb_pos_of_pd; auto.
+    - intros q' Hq' Z. specialize (IH q' Hq' ltac:(lia)). lra.
+    - apply PD. lia. }
+  split; [exact A|].
+  intros q Hq. destruct q as [|q]; [lia|].
+  pose proof (A q ltac:(lia)) as P1. pose proof (A (S q) ltac:(lia)) as P2. rewrite sb_S in P2.
+  destruct (Qlt_le_dec (cnorm2 (sk R (S q))) 1) as [|Hge]; auto. exfalso.
+  assert (sb R q * (1 - cnorm2 (sk R (S q))) <= 0).
+  { setoid_replace (sb R q * (1 - cnorm2 (sk R (S q)))) with (- (sb R q * (cnorm2 (sk R (S q)) - 1))) by ring.
+    assert (0 <= sb R q * (cnorm2 (sk R (S q)) - 1)) by (apply Qmult_le_0_compat; lra). lra. }
+  lra.
+Qed.
+
+(* model level *)
+Theorem sigma_pos_of_pd R order :
+  (1 <= order < length R)%nat -> im (nthC R 0) == 0 ->
+  (forall m, (1 <= m <= S order)%nat -> pos_def (Rf R) m) ->
+  0 < snd (AR_est_LD R order) /\
+  forall q, (1 <= q <= order)%nat -> cnorm2 (nthC (fst (AR_est_LD R q)) (q - 1)) < 1.
+Proof.
+  intros Ho H0 PD. destruct (pd_all (Rf R) order H0 PD) as [A B].
+  split.
+  - destruct (AR_est_LD_spec R order ltac:(lia)) as (_ & _ & E). rewrite E. apply A. lia.
+  - intros q Hq. destruct (AR_est_LD_spec R q ltac:(lia)) as (_ & Aq & _).
+    rewrite (Aq (q - 1)%nat) by lia. replace q with (S (q - 1)) at 1 by lia. rewrite sa_S_eq.
+    replace (S (q - 1)) with q by lia. apply B; exact Hq.
+Qed.
